@@ -1371,6 +1371,10 @@ fn keyprot_packet<P: SecPkt>(ctx: &mut Ctx, pkt: &P, keyname: &str, seed: u64) {
         let lenc = format!("{vname}-tag{tag}-pk{alg}");
         let rp = json!({"family": "keyprot", "key": keyname, "tag": tag, "protection": format!("{prot:?}"), "pw": hexs(&pw), "plain_packet": hexs(&plain)});
 
+        // documented policy of the library (reader, and writer since the lock/unlock alignment
+        // fix): usage 253 only with iterated / Argon2 specifiers
+        let policy_refusal = matches!(&prot, RefProtection::Aead { s2k: RefS2k::Salted { .. }, .. });
+
         // ---- library locks, reference unlocks
         if lib_writes {
             cov(ctx, &format!("keyprot-{pname}"), c, a, 0, kind, h, "-", &lenc, "lib->ref");
@@ -1404,14 +1408,18 @@ fn keyprot_packet<P: SecPkt>(ctx: &mut Ctx, pkt: &P, keyname: &str, seed: u64) {
                         );
                     }
                 }
-                Some(Err(e)) => ctx.violation(format!("C12/keyprot/{pname}/lib-to-ref/lock-error"), format!("{keyname} tag {tag} {prot:?}: {e}"), rp.clone()),
+                Some(Err(e)) => {
+                    if policy_refusal {
+                        ctx.tally("keyprot.aead_salted_lock_refused_by_policy", 1);
+                    } else {
+                        ctx.violation(format!("C12/keyprot/{pname}/lib-to-ref/lock-error"), format!("{keyname} tag {tag} {prot:?}: {e}"), rp.clone())
+                    }
+                }
                 None => {}
             }
         }
 
         // ---- reference locks, library unlocks
-        // documented reader policy of the library: usage 253 only with iterated / Argon2 specifiers
-        let policy_refusal = matches!(&prot, RefProtection::Aead { s2k: RefS2k::Salted { .. }, .. });
         let Some(locked) = RefSecret::lock(&rs.public, tag, prot.clone(), &pw, &material) else {
             ctx.inconclusive("reference cannot lock with this configuration");
             continue;
